@@ -189,6 +189,8 @@ class Path:
         self.module = module
         self.call_effects = call_effects or {}
         self.cond_pos = []      # number of events recorded when each cond was taken
+        self.allow_sym = False  # segment analysis: SSA values defined before the segment are fresh symbols
+        self.end = None         # 'ret' | 'unreachable' | 'cut:<block>' 
         self.env = {}
         self.mem = {}           # (root, off, var) -> (value expr, size)
         self.epoch = 0
@@ -207,6 +209,7 @@ class Path:
     def clone(self):
         p = Path(self.fn, self.module, self.call_effects)
         p.cond_pos = list(self.cond_pos)
+        p.allow_sym = self.allow_sym
         p.env = dict(self.env)
         p.mem = dict(self.mem)
         p.epoch = self.epoch
@@ -228,6 +231,10 @@ class Path:
         if k == "inst":
             e = self.env.get(v.name)
             if e is None:
+                if self.allow_sym:
+                    e = ("sym", v.name)
+                    self.env[v.name] = e
+                    return e
                 raise AnalysisError("value %s used before definition on path in %s" % (v.name, self.fn.name))
             if self.known and e in self.known:
                 return ("c", int_bits(v.ty) or 1, self.known[e])
@@ -324,6 +331,8 @@ class Path:
             for v, b in i.incoming:
                 if pred_block is not None and b == pred_block.name:
                     return ("phi", i, v)
+            if self.allow_sym and pred_block is None:
+                return ("physym", i, None)
             raise AnalysisError("phi %s has no incoming for predecessor in %s" % (i.name, self.fn.name))
         if i.is_dbg():
             return None
@@ -510,7 +519,7 @@ def enumerate_paths(fn, module, loop_bound=1, max_paths=MAX_PATHS, call_effects=
         for i in blk.insts:
             if i.op == "phi":
                 r = path.step(i, pred)
-                phis.append((i, path.ev(r[2])))
+                phis.append((i, ("sym", i.name) if r[0] == "physym" else path.ev(r[2])))
             else:
                 break
         for i, e in phis:
@@ -521,9 +530,11 @@ def enumerate_paths(fn, module, loop_bound=1, max_paths=MAX_PATHS, call_effects=
         if t.op == "ret":
             path.ret = path.ev(t.ops[0]) if t.ops else None
             path.ret_inst = t
+            path.end = "ret"
             path.events.append(Event("ret", t, val=path.ret))
             out.append(path)
         elif t.op == "unreachable":
+            path.end = "unreachable"
             path.ret_inst = t
             path.events.append(Event("unreachable", t))
             out.append(path)
@@ -708,7 +719,7 @@ def expr_bits(e):
     return None
 
 
-ATOM_KINDS = ("ld", "ald", "cx", "cxres", "rmw", "call", "arg", "g", "alloca", "fn", "null", "undef", "va_arg", "memval")
+ATOM_KINDS = ("sym", "ld", "ald", "cx", "cxres", "rmw", "call", "arg", "g", "alloca", "fn", "null", "undef", "va_arg", "memval")
 
 
 def arith_subexprs(e):
@@ -767,3 +778,93 @@ def partial_eval(e, env):
     if k == "p":
         return mkptr(partial_eval(e[1], env), e[2], tuple((partial_eval(v, env), s) for v, s in e[3]))
     return e
+
+
+
+def enumerate_segments(fn, module, call_effects=None, max_paths=MAX_PATHS):
+    """Loop-free segments: paths from the entry and from every loop header to a return or to the next arrival at
+    a loop header.  SSA values defined before a segment are fresh symbols ('sym', name); memory is unknown at the
+    start of a segment.  Returns [(start block name, Path)], with path.end in {'ret','unreachable','cut:<block>'}."""
+    heads = fn.loops_headers()
+    eff = dict(pure_functions(module))
+    eff.update(call_effects or {})
+    out = []
+    for start in [fn.entry.name] + sorted(h for h in heads if h != fn.entry.name):
+        p0 = Path(fn, module, eff)
+        p0.allow_sym = start != fn.entry.name
+        stack = [(p0, fn.blocks[start], None, True)]
+        while stack:
+            path, blk, pred, first = stack.pop()
+            if not first and blk.name in heads:
+                path.end = "cut:" + blk.name
+                path.ret_inst = pred.term
+                # evaluate the phis of the header for this arrival (values carried into the next iteration)
+                path.carried = {}
+                for i in blk.insts:
+                    if i.op != "phi":
+                        break
+                    for v, b in i.incoming:
+                        if b == pred.name:
+                            path.carried[i.name] = path.ev(v)
+                out.append((start, path))
+                continue
+            path.blocks.append(blk.name)
+            phis = []
+            for i in blk.insts:
+                if i.op == "phi":
+                    r = path.step(i, pred)
+                    phis.append((i, ("sym", i.name) if r[0] == "physym" else path.ev(r[2])))
+                else:
+                    break
+            for i, e in phis:
+                path.env[i.name] = e
+            for i in blk.insts[len(phis):]:
+                path.step(i, pred)
+            t = blk.term
+            if t.op == "ret":
+                path.ret = path.ev(t.ops[0]) if t.ops else None
+                path.ret_inst = t
+                path.end = "ret"
+                path.events.append(Event("ret", t, val=path.ret))
+                out.append((start, path))
+            elif t.op == "unreachable":
+                path.end = "unreachable"
+                path.ret_inst = t
+                out.append((start, path))
+            elif t.op == "br":
+                if t.cond is None:
+                    nxt = [(fn.blocks[t.succs[0]], None)]
+                else:
+                    c = path.ev(t.cond)
+                    if c[0] == "c":
+                        nxt = [(fn.blocks[t.succs[0] if c[2] else t.succs[1]], None)]
+                    else:
+                        nxt = [(fn.blocks[t.succs[0]], (c, True, t)), (fn.blocks[t.succs[1]], (c, False, t))]
+                for k, (sb, cond) in enumerate(nxt):
+                    p2 = path.clone() if k < len(nxt) - 1 else path
+                    if cond:
+                        p2.conds.append(cond)
+                        p2.cond_pos.append(len(p2.events))
+                        p2.known[cond[0]] = 1 if cond[1] else 0
+                    stack.append((p2, sb, blk, False))
+            elif t.op == "switch":
+                c = path.ev(t.cond)
+                cases = t["cases"]
+                if c[0] == "c":
+                    hit = [b for v, b in cases if v == c[2]]
+                    targets = [(fn.blocks[hit[0] if hit else t["default"]], None)]
+                else:
+                    targets = [(fn.blocks[b], (c, v, t)) for v, b in cases] + [(fn.blocks[t["default"]], (c, "default", t))]
+                for sb, cond in targets:
+                    p2 = path.clone()
+                    if cond:
+                        p2.conds.append(cond)
+                        p2.cond_pos.append(len(p2.events))
+                        if cond[1] != "default":
+                            p2.known[cond[0]] = cond[1]
+                    stack.append((p2, sb, blk, False))
+            else:
+                raise AnalysisError("unexpected terminator %s" % t.op)
+            if len(out) + len(stack) > max_paths:
+                raise AnalysisError("segment bound %d exceeded in %s" % (max_paths, fn.name))
+    return out
